@@ -217,6 +217,8 @@ Proof.
     + exact Haddr.
     + intros a0 [<-|Hc]. { right. unfold b. lia. } apply in_concat_splice in Hc; auto. left. apply Hcl. auto.
     + intros a0 off [H|H]; [inversion H; auto | eapply Hwf; eauto].
+    + intros a0 Hge Hlt. unfold h' in Hlt. rewrite app_length in Hlt. simpl in Hlt.
+      assert (a0 = b) by (unfold b; lia). subst a0. left. exists 0. left. auto.
 Qed.
 
 (* the splice is written in place into the allocated array *)
@@ -275,6 +277,7 @@ Proof.
     + unfold h'. rewrite set_list_length. auto.
     + intros a0 Ha0 Hnin. apply Hother. intro Heq; subst a0. apply Hnin. left. auto.
     + intros a0 [<-|Hc]. { left; left; auto. } apply in_concat_splice in Hc; auto. left. right. auto.
+    + intros a0 Hge Hlt. unfold h' in Hlt. rewrite set_list_length in Hlt. lia.
 Qed.
 
 (* ---- the three copies into the fresh array ---- *)
@@ -463,7 +466,7 @@ Proof.
   - destruct Hr as [-> _]. auto.
   - destruct Hr as [-> _]. auto.
   - destruct Hr as [-> _]. auto.
-  - destruct Hr as [-> ->]. exists h, ps, HEmpty, []. repeat split; auto; try constructor; try (intros; simpl in *; tauto).
+  - destruct Hr as [-> ->]. exists h, ps, HEmpty, []. repeat split; auto; try constructor; try (intros; simpl in *; tauto); try (intros; lia).
   - pose proof Hr as Hr0.
     apply orep_arr in Hr as (a & off & len & cap & cells & fps & -> & Hna & Hl & Hc & Hcase).
     destruct (reps3_length _ _ _ _ Hc) as [L1 L2].
